@@ -80,6 +80,25 @@ Definition f_round_to_isize (x : float) : Z :=
       if s then Z.max (- v) (-9223372036854775808) else Z.min v 9223372036854775807
   end.
 
+(* |x| rounded up to a whole number *)
+Definition ceil_mag (m : positive) (e : Z) : N :=
+  if (0 <=? e)%Z then (Npos m * 2 ^ (Z.to_N e))%N
+  else
+    let k := Z.to_N (- e) in
+    let q := (Npos m / 2 ^ k)%N in
+    if (Npos m mod 2 ^ k =? 0)%N then q else (q + 1)%N.
+
+(* `x.floor() as isize` (saturating, NaN -> 0) *)
+Definition f_floor_to_isize (x : float) : Z :=
+  match Prim2SF x with
+  | S754_zero _ => 0%Z
+  | S754_nan => 0%Z
+  | S754_infinity s => if s then (-9223372036854775808)%Z else 9223372036854775807%Z
+  | S754_finite s m e =>
+      if s then Z.max (- Z.of_N (ceil_mag m e)) (-9223372036854775808)
+      else Z.min (Z.of_N (trunc_mag m e)) 9223372036854775807
+  end.
+
 (* bit pattern (f64::to_bits), for printing/comparison *)
 Definition f_bits (x : float) : N :=
   match Prim2SF x with
